@@ -345,7 +345,8 @@ def _check(case, nm, skip, labels, tmp):
     gin.parse_config(PRELUDE)
     labels.add('prelude-registered-am.fn')
   entry = case.get('entry') or 'string'
-  if case['mode'] == 'dynamic' and entry not in ('string', 'list', 'tuple'):
+  if case['mode'] == 'dynamic' and entry not in ('string', 'list', 'tuple', 'bindings',
+                                                 'bindings-list'):
     entry = 'string'
   labels.add('entry:' + entry)
   try:
@@ -353,6 +354,15 @@ def _check(case, nm, skip, labels, tmp):
       warnings.simplefilter('ignore')
       if entry == 'string':
         gin.parse_config(text, skip_unknown=skip_value(skip))
+      elif entry == 'bindings':
+        # the text given as the extra bindings of the multi-file entry point (no files)
+        gin.parse_config_files_and_bindings(None, text, finalize_config=False,
+                                            skip_unknown=skip_value(skip))
+      elif entry == 'bindings-list':
+        t = S.Tape(case['tape'])
+        entries = list(nm['header']) + ['\n'.join(S.render_simple(s_, t, set())) for s_ in stmts]
+        gin.parse_config_files_and_bindings([], entries, finalize_config=False,
+                                            skip_unknown=skip_value(skip))
       elif entry in ('list', 'tuple'):
         # "a list of individual parameter binding strings": one entry per statement (the lines
         # of the header -- enabling statement and imports -- are entries of their own)
@@ -597,5 +607,5 @@ def strategy(draw):
       s[3] = [[a, no_known_calls(v)] for a, v in s[3]]
   return {'mode': mode, 'skip': [kind, listed], 'stmts': stmts, 'tape': draw(S.tapes(10)),
           'entry': draw(st.sampled_from(['string', 'string', 'file', 'include', 'multi', 'list',
-                                         'tuple'])),
+                                         'tuple', 'bindings', 'bindings-list'])),
           'prelude': draw(st.booleans())}
